@@ -38,7 +38,7 @@ theorem seenBy_nodup_step {s : Net} {op : Op} (h : ∀ f, f ∈ s.flight → f.a
     subst hy
     intro hxy; subst hxy
     exact hsb hx
-  | wdr hop ha hcidr hd hadv => rw [hadv]; simp [withdrawAdv]
+  | wdr hint hop ha hcidr hd hadv => rw [(mem_withdrawAdvs hadv).seenBy]; simp
   | rep ord hop ha hb hl hadv => rw [(mem_replayAdvs hadv).seenBy]; simp
 
 theorem C11_seenby_nodup (n mh : Nat) (L : Node → List RAd) (ops : List Op) :
@@ -205,7 +205,7 @@ theorem C11_deliver_decreases (s : Net) (a b i : Nat) (h : Effective s a b i) :
 /-- Ops that create no traffic. (`announce`, `replay` and `dup` are the only ones that do.) -/
 def quiet : Op → Bool
   | .announce _ _ => false
-  | .withdraw _ => false
+  | .withdraw _ _ => false
   | .replay _ _ _ => false
   | .dup _ _ _ => false
   | _ => true
@@ -232,7 +232,7 @@ theorem muL_filter_le (n : Nat) (l : List Flight) (p : Flight → Bool) : muL n 
 theorem quiet_not_increasing (s : Net) (op : Op) (hq : quiet op = true) : mu (step s op) ≤ mu s := by
   cases op with
   | announce a _ => cases hq
-  | withdraw a => cases hq
+  | withdraw a _ => cases hq
   | replay a b ord => cases hq
   | dup a b i => cases hq
   | deliver a b i =>
@@ -324,7 +324,7 @@ theorem seen_step_mono {s : Net} {op : Op} {b : Node} {k : Node × Nat}
       · rename_i hx; subst hx; exact hk
       · exact hk
     · exact hk
-  | withdraw c =>
+  | withdraw c _ =>
     simp only [step, stepCore]; split
     · simp only [setNode_nodes]; split
       · rename_i hx; subst hx; exact hk
@@ -540,7 +540,9 @@ theorem pathInv_step {s : Net} {op : Op} (hI : PathInv s) (hb : benignOp s op = 
         rcases List.mem_cons.1 hy with hy | hy
         · subst hy; simp
         · exact List.mem_append_left _ (hsub y hy)
-    | wdr hop ha hcidr hd hadv => rw [hadv]; simp [withdrawAdv]
+    | wdr hint hop ha hcidr hd hadv =>
+      have h := mem_withdrawAdvs hadv
+      rw [h.path, h.seenBy]; simp
     | rep ord hop ha hb' hl hadv =>
       subst hop
       obtain ⟨_, hp⟩ := benign_replay hb hadv
